@@ -72,7 +72,8 @@ def drive(binary, cases, trace, seed, tier, concrete=False, extra=None):
             "-service", 40 if tier == "quick" else 1500, "-rounds", 1 if tier == "quick" else 5]
     if concrete:
         args.append("-concrete")
-    out = run_driver(binary, args + (extra or []), timeout=1200).strip()
+    # the service runs in a time zone west of UTC: instants given as text without a zone are UTC all the same
+    out = run_driver(binary, args + (extra or []), timeout=1200, env={"TZ": "America/New_York"}).strip()
     m = re.search(r"backend=(\w+)", out)
     return out, (m.group(1) if m else "?")
 
